@@ -1206,9 +1206,12 @@ Returns:
         cls = self.__class__
         result = cls.__new__(cls)
         memo[id(self)] = result
+        # copy the cost together with the counter and monitor it is bound to
+        link = ('_cost', '_fcalls', '_evalmon')
+        bound = dill.copy(tuple(self.__dict__.get(k) for k in link))
         for k, v in self.__dict__.items():
-            if v is self._cost:
-                setattr(result, k, tuple(dill.copy(i) for i in v))
+            if k in link:
+                setattr(result, k, bound[link.index(k)])
             else:
                 try: #XXX: work-around instancemethods in python2.6
                     setattr(result, k, copy.deepcopy(v, memo))
